@@ -289,7 +289,11 @@ def apply_op1(t, op):
         if op[2] == "none":
             return t.extend_until(), []
         if prolong:
-            return t.extend_until(T(op[2])), []          # prolong_chronon=True is the documented default: not passed
+            r = t.extend_until(T(op[2]))                 # prolong_chronon=True is the documented default: not passed
+            first = snap(r)
+            again = r.extend_until(T(op[2]))             # "doing it twice equals doing it once": the same object, called again
+            extra = [] if (again is r and snap(again) == first) else [["second-call-differs", snap(again)]]
+            return r, extra
         return t.extend_until(T(op[2]), prolong_chronon=False), []
     if k == "sequentialize":
         r = t.sequentialize()
